@@ -88,6 +88,10 @@ def gen_case(rng):
     rr = rng.random()
     if rr < 0.15:
       val = {'ref': [rng.choice([[], ['a']]), rng.choice(known), rng.random() < 0.5]}
+      if rng.random() < 0.25:   # the macro configurable itself, referenced without being evaluated
+        val = {'ref': [[rng.choice(['m', 'lr'])], 'gin.macro', False]}
+        if rng.random() < 0.5:
+          val = {'l': [val, {'macro': 'm'}]}
     elif rr < 0.22:
       val = {'macro': rng.choice(['m', 'M', 'lr'])}
     else:
@@ -151,7 +155,7 @@ def ordered_doc(sess, text):
       try:
         val = encode(ast.literal_eval(rest.strip()), sess.gin)
       except Exception:  # pylint: disable=broad-except
-        val = {'text': rest.strip()}
+        val = {'text': ' '.join(rest.split())}   # layout (wrapping) is not structure
       if in_macros:
         macros.append([key, val])
       elif cur is not None:
@@ -165,13 +169,13 @@ def _plain(v):
   """Mirror values rendered like the text reader renders them (references/macros as their text)."""
   from encode import to_literal
   if isinstance(v, dict) and any(k in v for k in ('ref', 'macro', 'const')):
-    return {'text': to_literal(v)}
+    return {'text': ' '.join(to_literal(v).split())}
   if isinstance(v, dict):
     for k in ('l', 't'):
       if k in v:
         inner = [_plain(x) for x in v[k]]
         if any(isinstance(x, dict) and 'text' in x for x in inner):
-          return {'text': to_literal(v)}
+          return {'text': ' '.join(to_literal(v).split())}
         return {k: inner}
   return v
 
